@@ -69,8 +69,30 @@ def random_history(tid, seed, nvars, steps, max_held=8, profile='core'):
             u, v = pick_ref(tr, rng), pick_ref(tr, rng)
             tr.apply(op, u, v)
             recent.append(('apply', (op, u, v)))
-        elif c < 0.47:
+        elif c < 0.46:
             tr.apply(rng.choice(UN_OPS), pick_ref(tr, rng))
+        elif c < 0.47 and not dynp:
+            # a bounded table (`max_nodes`): the call either fits, or is refused
+            # with RuntimeError -- never a collection in the middle of it
+            room = rng.choice([0, 1, 2, 4])
+
+            def bound():
+                b.max_nodes = max(b._succ) + 1 + room
+                return 0
+
+            def unbound():
+                import sys as _sys
+                b.max_nodes = _sys.maxsize
+                return 0
+            tr.call('other', dict(what='set_max_nodes', room=room), bound)
+            for _ in range(2):
+                if rng.random() < 0.5:
+                    tr.apply(rng.choice(BIN_OPS), pick_ref(tr, rng), pick_ref(tr, rng), expect_ok=False)
+                else:
+                    g, u, v = (pick_ref(tr, rng) for _ in range(3))
+                    tr.call('ite', dict(g=g, u=u, v=v, witness=False), lambda: b.ite(g, u, v),
+                            hold=True, expect_ok=False)
+            tr.call('other', dict(what='lift_max_nodes'), unbound)
         elif c < 0.48 and not dynp:
             # copy.copy(manager): the copy works on its own for a while
             import copy as _copy_mod
@@ -82,9 +104,12 @@ def random_history(tid, seed, nvars, steps, max_held=8, profile='core'):
                     if len(hs) >= 2:
                         x = c2.apply(rng.choice(BIN_OPS), rng.choice(hs), -rng.choice(hs))
                         hs.append(x)
-                for u in list(c2._ref):
-                    c2._ref[u] = 0         # the copy is discarded; silence its shutdown check
-                c2._ref[1] = 1
+                # the copy is discarded: empty it, so that its shutdown check has nothing to say
+                t1 = c2._succ[1]
+                c2._succ = {1: t1}
+                c2._pred = {}
+                c2._ref = {1: 1}
+                c2._ite_table = {}
                 return 0
             tr.call('other', dict(what='fork_manager_copy'), fork)
         elif c < 0.52:
